@@ -235,10 +235,11 @@ CHECKS = {
         "pins raised (bare_equals_wrapped). Closed under the global context. The tie builds nested Solvers in /repo (shared sub-solvers "
         "placed several times, partial exposure, and a stream that edits a shared sub-solver between two solves of the parent) and "
         "compares the observed top-level matrix with both the nested model and the flat model."
-        " Further streams: sub-solvers built with hand-named plus auto-raised pins (pin names shared between structures), and a placed sub-solver that exposes one more pin afterwards (the parent must answer as before). Sub-solvers may expose their pins under names that are a cyclic shift of the inner pin names, and may be wired at placement by name (SUB.put(name, (structure, pin))). A child all of whose ports are exposed may be raised in one Structure.raise_pins(pino=[...]) call; exposure names may be declared against alphabetical order.",
+        " Further streams: sub-solvers built with hand-named plus auto-raised pins (pin names shared between structures), and a placed sub-solver that exposes one more pin afterwards (the parent must answer as before). Sub-solvers may expose their pins under names that are a cyclic shift of the inner pin names, and may be wired at placement by name (SUB.put(name, (structure, pin))). A child all of whose ports are exposed may be raised in one Structure.raise_pins(pino=[...]) call; exposure names may be declared against alphabetical order."
+        " On every run harness/translate_handover.py reads the CURRENT source of Structure.get_model, Model.__init__ and the sub-solver branch of Structure.createS (the hierarchy step) and coq/templates/HandoverSrcProof.v proves that a solved model reads, between two exposed names, the entry Hier.restrict defines (3 theorems, closed).",
    note="Trusted: Coq kernel + vm_compute; Bignums primitives for the executed instance; model tied by sampled correspondence; harness "
         "(resolution of pin names to leaf pins is done by the harness; name handling is C16's subject). Conditional on the model returning Ok.",
-   technique="Coq proof (induction over arbitrary nesting) + vm_compute correspondence nested-vs-flat-vs-implementation", design="§5 C02"),
+   technique="Coq proof (induction over arbitrary nesting) + vm_compute correspondence nested-vs-flat-vs-implementation + source-to-Gallina translation of the model hand-over (get_model / createS) proved equal to Hier.restrict on every run", design="§5 C02"),
  "C08": dict(
    text="Proof: props/C08.v states for every netlist and schedule with a defined result: all components passive => for every excitation "
         "of the exposed pins (any exposure subset) outgoing power <= incoming power; all lossless => equality (and S^H S = I implies the "
